@@ -96,6 +96,7 @@ type Gen struct {
 	wReq, wTick int
 	nSettle     int
 	nGadget     int
+	nDeadline   int
 	nLostAck    int
 	nDiskFull   int
 	nFaultSettle int
@@ -775,6 +776,50 @@ func (g *Gen) Next() Step {
 			st := g.queue[0]
 			g.queue = g.queue[1:]
 			return st
+		}})
+	}
+	// requests that straddle the deadline of the hot promise: the clock is brought to just before
+	// it, a handful of reads/completions/creates/searches of that promise is submitted, and their
+	// store round trips are separated by ticks of a millisecond or none, so that some are decided
+	// before, some exactly at and some after the deadline, against each other and against the sweep
+	if hp := s.Last.Promises[g.hot]; hp != nil && hp.State == 1 && hp.Timeout > s.Now && hp.Timeout-s.Now < 1<<40 && g.nDeadline < 3 && g.nReq+6 < g.P.MaxReqs {
+		cs = append(cs, cand{2 + g.wReq/4, func() Step {
+			g.nDeadline++
+			s.Probes["deadline_gadget"]++
+			lead := int64(r.Intn(3))
+			kinds := []string{"ReadPromise", "CompletePromise", "SearchPromises", "ReadPromise", "CreatePromise", "CompletePromise"}
+			n := 2 + r.Intn(4)
+			for i := 0; i < n; i++ {
+				var sp *ReqSpec
+				switch k := kinds[r.Intn(len(kinds))]; k {
+				case "ReadPromise":
+					sp = &ReqSpec{Kind: k, Id: g.hot}
+				case "CompletePromise":
+					sp = &ReqSpec{Kind: k, Id: g.hot, IKey: g.key(), Strict: r.Intn(4) == 0, State: pick(r, []string{"RESOLVED", "REJECTED", "REJECTED_CANCELED"}), Data: g.val()}
+				case "CreatePromise":
+					sp = g.createSpec(k)
+					sp.Id = g.hot
+				default:
+					sp = &ReqSpec{Kind: k, Id: pick(r, []string{"*", g.hot}), Limit: pick(r, []int{1, 2, 100})}
+					if r.Intn(2) == 0 {
+						sp.States = []string{"pending"}
+					}
+				}
+				g.nReq++
+				g.decorate(sp)
+				g.queue = append(g.queue, Step{Op: "req", Client: r.Intn(3), Req: sp})
+				if r.Intn(3) == 0 {
+					g.queue = append(g.queue, Step{Op: "tick", Dt: int64(r.Intn(2))})
+				}
+			}
+			for i := 0; i < 3; i++ {
+				g.queue = append(g.queue, Step{Op: "tick", Dt: int64(r.Intn(2))}, Step{Op: "work", Sub: "store", N: 1 + r.Intn(4)}, Step{Op: "deliver", Sub: "store"})
+			}
+			dt := hp.Timeout - lead - s.Now
+			if dt < 0 {
+				dt = 0 // the simulated clock never runs backwards
+			}
+			return Step{Op: "tick", Dt: dt}
 		}})
 	}
 	cs = append(cs, cand{g.wTick, func() Step { return Step{Op: "tick", Dt: g.dt()} }})
